@@ -156,7 +156,7 @@ def run_child(binary, unit, cfg, bdir, tier, seed, shard, shards):
     env = dict(os.environ)
     env.update({
         "VERIF_OUT": outdir, "VERIF_SEED": str(seed), "VERIF_TIER": tier,
-        "VERIF_REPLAY_DIR": os.path.join(VERIF, "replays", cfg["property_id"]),
+        "VERIF_REPLAY_DIR": os.path.join(VERIF, "replays", cfg["property_id"] if REPO == "/repo" else cfg["property_id"] + "-alt"),
         "VERIF_SHARD": str(shard), "VERIF_SHARDS": str(shards), "VERIF_REPO": REPO, "VERIF_DIR": VERIF,
         "VERIF_BUILD": bdir,
     })
@@ -286,7 +286,7 @@ def main():
         log("INCONCLUSIVE property=%s no check config" % pid)
         return 2
     cfg = json.load(open(cfgp))
-    write_evidence = True
+    write_evidence = not os.environ.get("VERIF_NO_EVIDENCE")
     if replay:
         rp = json.load(open(replay))
         seed = int(rp.get("seed", seed))
@@ -296,10 +296,10 @@ def main():
     if only_unit:
         write_evidence = write_evidence and False
     t_start = time.time()
-    bdir = os.path.join(VERIF, "build", pid)
+    bdir = os.path.join(VERIF, "build", pid + ("" if REPO == "/repo" else "-alt%d" % os.getpid()))
     shutil.rmtree(bdir, ignore_errors=True)
     os.makedirs(os.path.join(bdir, "out"), exist_ok=True)
-    rdir = os.path.join(VERIF, "replays", pid)
+    rdir = os.path.join(VERIF, "replays", pid if REPO == "/repo" else pid + "-alt")
     os.makedirs(rdir, exist_ok=True)
     if not replay:
         for f in glob.glob(os.path.join(rdir, "*-seed%d-*" % seed)):
@@ -438,7 +438,7 @@ def main():
 
     if merged["evaluations"] == 0 and not violations:
         inconclusive.append("no monitor reported any evaluation")
-    for m in cfg.get("min_counters", []):  # e.g. {"name":"unit.counter","min":1}
+    for m in ([] if only_unit else cfg.get("min_counters", [])):  # e.g. {"name":"unit.counter","min":1}
         if tier in m.get("tiers", ["quick", "thorough"]) and merged["counters"].get(m["name"], 0) < m["min"]:
             inconclusive.append("counter %s=%s below required %s (monitor did not observe what it relies on)" % (
                 m["name"], merged["counters"].get(m["name"], 0), m["min"]))
@@ -500,6 +500,8 @@ def main():
     if not keep and not real and not inconclusive:
         for f in glob.glob(os.path.join(bdir, "*.test")):
             os.remove(f)
+    if REPO != "/repo" and not keep:
+        shutil.rmtree(bdir, ignore_errors=True)
     if real:
         return 1
     if inconclusive:
